@@ -8,6 +8,7 @@ Require Import GV.Base.Res GV.Base.Byt GV.Base.Ints GV.Model.Leb GV.Model.Prim.
 Require Import GV.Spec.CfiSpec GV.Model.CfiRd GV.Proofs.CfiRdProofs.
 Require GV.Spec.CfaSpec GV.Model.CfiRun GV.Proofs.CfiRunProofs.
 Require Import GV.Model.CfiUwi GV.Proofs.CfiUwiProofs.
+Require Import GV.Model.CfiRunSetLoc GV.Proofs.CfiRunSetLocProofs.
 Import ListNotations.
 Local Open Scope N_scope.
 
@@ -525,6 +526,129 @@ Proof.
   eexists. vm_compute. reflexivity.
 Qed.
 
+
+(* ================================================================== 8b. ... THROUGH encoded DW_CFA_set_loc *)
+(* Model/CfiRunSetLoc.v extends the table evaluation to FDEs whose CIE gives an FDE address encoding ('R'):
+   the FDE's instruction iterator decodes a DW_CFA_set_loc operand with parse_encoded_pointer under that encoding
+   (bases.eh_frame, the operand's own offset for pcrel, no function base; indirect refused), everything else as
+   C06's CfiRun; the CIE's initial instructions keep a plain address. unwind_info_for_address_sl /
+   hdr_unwind_info_for_address_sl / fde_rows_sl / fde_uwi_sl are the extended functions (tied by c05.setloctab);
+   fde_items_sl = what the FDE's iterator yields; spec_of_sl = C06's DWARF machine (limits as a guard) on the CIE
+   items and those FDE items. The theorems of section 8 hold for them WITHOUT section_setloc_plain. *)
+
+(* the extended evaluator refines the DWARF machine, for EVERY FDE record (any bytes, any encoding byte) *)
+Theorem table_through_set_loc_refines : forall dbg cp c aa fd cx,
+  CfiRun.valid_asize (ci_asz (fd_cie fd)) = true ->
+  CfiRun.cap_full (CfaSpec.max_stack cp) 0 = false ->
+  Forall2 CfiRunProofs.row_equiv (fst (fst (fde_rows_sl dbg cp c aa fd cx))) (fst (spec_of_sl dbg cp c aa fd)) /\
+  snd (fst (fde_rows_sl dbg cp c aa fd cx)) = snd (spec_of_sl dbg cp c aa fd).
+Proof. exact model_eq_spec_sl. Qed.
+
+(* unwind_info_is_lookup_then_table, any encoding, EVERY byte string *)
+Theorem unwind_info_is_lookup_then_table_any_encoding : forall dbg cp c aa sec cx a,
+  fst (unwind_info_for_address_sl dbg cp c aa sec cx a) =
+  match fde_for_address dbg c sec a with
+  | Ok fd => pick a (fst (fst (fde_rows_sl dbg cp c aa fd cx))) (snd (fst (fde_rows_sl dbg cp c aa fd cx)))
+  | Err e => Err e
+  | Panic => Panic
+  | OutOfFuel => OutOfFuel
+  end.
+Proof. exact uwi_sl_compose. Qed.
+
+(* unwind_info_row_of_spec_table WITHOUT section_setloc_plain: first covering FDE in section order, the row of ITS
+   call-frame table containing the address, set_loc targets being the pointers the CIE's encoding assigns to the
+   operands; a set_loc below the current row's start is InvalidCfiSetLoc (CfaSpec.spec_step), an indirect or
+   unknown encoding / missing base the specific pointer error (set_loc_all_inputs) *)
+Theorem unwind_info_row_of_spec_table_any_encoding : forall dbg cp c aa sec cx a items fds,
+  asz_ok (sc_asz c) -> CfiRun.cap_full (CfaSpec.max_stack cp) 0 = false ->
+  entries_all dbg c sec = Ok (items, None) ->
+  parsed_fdes dbg c sec items = Some fds ->
+  match find (fun f => covers f a) fds with
+  | None => fst (unwind_info_for_address_sl dbg cp c aa sec cx a) = Err ENoUnwindInfoForAddress
+  | Some fd =>
+      uwi_result_spec a (fst (spec_of_sl dbg cp c aa fd)) (snd (spec_of_sl dbg cp c aa fd))
+                      (fst (unwind_info_for_address_sl dbg cp c aa sec cx a))
+  end.
+Proof. exact uwi_sl_spec_lem. Qed.
+
+Theorem hdr_unwind_info_uses_designated_fde_any_encoding : forall dbg cp hb h c aa sec cx a,
+  asz_ok (sc_asz c) ->
+  fst (hdr_unwind_info_for_address_sl dbg cp hb h c aa sec cx a) =
+  (let* p := hdr_lookup dbg hb h a in
+   let* o := pointer_to_offset dbg h p in
+   let* fd := fde_from_offset dbg c sec o in
+   if covers fd a then
+     pick a (fst (fst (fde_rows_sl dbg cp c aa fd cx))) (snd (fst (fde_rows_sl dbg cp c aa fd cx)))
+   else Err ENoUnwindInfoForAddress).
+Proof. exact hdr_uwi_sl_designated_lem. Qed.
+
+Theorem unwind_info_paths_agree_any_encoding : forall dbg cp hb h c aa sec cx a items fds size o0 rows locs extra tfds e,
+  asz_ok (sc_asz c) ->
+  entries_all dbg c sec = Ok (items, None) ->
+  parsed_fdes dbg c sec items = Some fds ->
+  wf_hdr dbg hb h fds size o0 rows locs extra tfds e ->
+  hdr_unwind_info_for_address_sl dbg cp hb h c aa sec cx a = unwind_info_for_address_sl dbg cp c aa sec cx a.
+Proof. exact uwi_sl_paths_agree_lem. Qed.
+
+(* the extension agrees with C06's evaluator / section 8's composition where those are exact: no 'R' encoding
+   (every byte string: rows, outcome, context left behind), and — as item lists — FDEs none of whose instructions
+   starts with opcode 0x01 *)
+Theorem set_loc_extension_agrees_without_encoding : forall dbg cp c aa fd cx a,
+  fde_addr_enc fd = None ->
+  fde_rows_sl dbg cp c aa fd cx = CfiRun.fde_rows dbg cp (fde_in_of (sc_be c) aa fd) cx /\
+  fde_uwi_sl dbg cp c aa fd cx a = CfiRun.unwind_info_for_address dbg cp (fde_in_of (sc_be c) aa fd) cx a.
+Proof. intros. split; [apply fde_rows_sl_plain|apply fde_uwi_sl_plain]; assumption. Qed.
+
+Theorem unwind_info_extension_agrees : forall dbg cp c aa sec cx a,
+  (forall fd, fde_for_address dbg c sec a = Ok fd -> fde_addr_enc fd = None) ->
+  unwind_info_for_address_sl dbg cp c aa sec cx a = unwind_info_for_address dbg cp c aa sec cx a.
+Proof. exact uwi_sl_agrees_plain. Qed.
+
+Theorem set_loc_free_same_items : forall dbg c aa fd,
+  setloc_free dbg c aa fd = true ->
+  fde_items_sl dbg c aa fd =
+  CfiRun.decode dbg (CfiRun.f_dparams (fde_in_of (sc_be c) aa fd)) (off (fd_instr fd)) (win (fd_instr fd)).
+Proof. exact setloc_free_items. Qed.
+
+(* set_loc inside the table: at any position of the FDE's instruction stream, opcode 0x01 followed by the
+   encoding of v yields the instruction SetLoc(a) with a = ptr_spec(enc, bases, offset of the operand, v) — the
+   pointer of pointer_roundtrip / set_loc_roundtrip — and the stream continues behind the operand; an indirect
+   encoding ends it with UnsupportedIndirectPointer *)
+Theorem set_loc_in_table : forall dbg c aa fd enc o v rest ind a,
+  fde_addr_enc fd = Some enc ->
+  enc < 256 -> asz_ok (ci_asz (fd_cie fd)) -> valid_spec enc = true -> enc <> 255 ->
+  value_fits (fmt_of enc) (ci_asz (fd_cie fd)) v = true ->
+  ptr_spec enc (ci_asz (fd_cie fd)) (pb_of (mkpp (sc_bases c) None (ci_asz (fd_cie fd)))) (o + 1) v = Some (ind, a) ->
+  let ev := enc_value (fmt_of enc) (ci_asz (fd_cie fd)) (sc_be c) v in
+  dec_g (parse_insn_sl dbg c aa fd) {| CfiRun.it_off := o; CfiRun.it_bytes := n2b 1 :: ev ++ rest |} =
+  if ind then [CfaSpec.Bad EUnsupportedIndirectPointer]
+  else CfaSpec.It (CfaSpec.ISetLoc a)
+       :: dec_g (parse_insn_sl dbg c aa fd) {| CfiRun.it_off := o + 1 + nlen ev; CfiRun.it_bytes := rest |}.
+Proof. exact set_loc_in_table_lem. Qed.
+
+(* the section of set_loc_instance: one FDE [4377, 4441) whose only instruction is set_loc(pcrel|sdata4 -> 4643).
+   gimli (and the extension) deliver the row [4377, 4643); the restricted model of section 8 reads a plain 8-byte
+   address from the 4-byte operand and reports UnexpectedEof — and because that failed decode leaves no SetLoc item,
+   setloc_plain is TRUE here: the scope predicate of section 8 does not exclude every FDE on which the adapter is
+   inexact (it misses set_loc operands whose plain decode fails). The theorems of this section need no such scope. *)
+Example unwind_info_through_set_loc_instance :
+  asz_ok (sc_asz ex_uw_cfg) /\ CfiRun.cap_full (CfaSpec.max_stack ex_heap) 0 = false /\
+  (exists items f, entries_all true ex_uw_cfg ex_sl_sec = Ok (items, None) /\
+                   parsed_fdes true ex_uw_cfg ex_sl_sec items = Some [f] /\
+                   fde_addr_enc f = Some 27 /\ setloc_plain true false false f = true /\
+                   map (fun r => (CfiRun.r_start r, CfiRun.r_end r)) (fst (fst (fde_rows_sl true ex_heap ex_uw_cfg false f ex_ctx)))
+                   = [(4377, 4643); (4643, 4441)]) /\
+  (exists r, fst (unwind_info_for_address_sl true ex_heap ex_uw_cfg false ex_sl_sec ex_ctx 4400) = Ok r /\
+             CfiRun.r_start r = 4377 /\ CfiRun.r_end r = 4643) /\
+  fst (unwind_info_for_address true ex_heap ex_uw_cfg false ex_sl_sec ex_ctx 4400) = Err EUnexpectedEof.
+Proof.
+  split; [right; right; right; reflexivity|]. split; [reflexivity|].
+  split. { eexists. eexists. split; [vm_compute; reflexivity|]. split; [vm_compute; reflexivity|].
+           split; [reflexivity|]. split; vm_compute; reflexivity. }
+  split; [eexists; split; [vm_compute; reflexivity|split; reflexivity]|].
+  vm_compute. reflexivity.
+Qed.
+
 (* ================================================================== 9. EhHdrTableIter as a state machine *)
 (* operations next / nth k / size_hint on ONE iterator, any history. iter_spec row total dec q rem ops
    (Proofs/CfiRdHist.v) is the expected observation list: state q = rows the reader has moved past,
@@ -580,6 +704,10 @@ Proof.
 Qed.
 
 (* statement pins *)
+Check table_through_set_loc_refines. Check unwind_info_is_lookup_then_table_any_encoding.
+Check unwind_info_row_of_spec_table_any_encoding. Check hdr_unwind_info_uses_designated_fde_any_encoding.
+Check unwind_info_paths_agree_any_encoding. Check set_loc_extension_agrees_without_encoding. Check unwind_info_extension_agrees.
+Check set_loc_free_same_items. Check set_loc_in_table.
 Check eh_pe_valid_all : forall e, e < 256 -> pe_is_valid e = valid_spec e.
 Check linear_lookup_is_scan : forall dbg c sec a items e,
   entries_all dbg c sec = Ok (items, e) -> fde_for_address dbg c sec a = scan_items dbg c sec a items e.
